@@ -371,6 +371,8 @@ pub fn main(args: &[String]) {
         }
         crate::jsexec::run(&refs, a.seed, true, &mut rep);
     }
+    // `Option<()>` / `Result<(), E>` of a writing method: the flag is all that is returned, the write buffer stays a parameter
+    crate::c01::write_param_probe(&mut rep);
     js_result_slot_probe(&mut rep);
     helper_record_probe(&mut rep);
     rep.print();
